@@ -32,7 +32,7 @@ import re
 
 from ..fixeffects import FixEffects, ws_locals
 from ..flow import Facts
-from ..model import AnalysisError, norm, walk_function
+from ..model import AnalysisError, expand_text, norm, walk_function
 from ..report import Result
 from ..selftest import Variant
 from ..summaries import Summaries
@@ -488,6 +488,11 @@ def wholesale_sites(p, reach):
                         if t.startswith("(") and t.endswith(")"):
                             t = t[1:-1].strip()
                         pol = not pol
+                    try:
+                        # a guard over a hoisted local is the same guard: compare the expanded condition
+                        t = expand_text(fi, ast.parse(t, mode="eval").body)
+                    except SyntaxError:
+                        pass
                     canon.add("%s is %s" % (t, pol))
                 guards = sorted(canon)
                 key = "%s:set_tokens(%s) under [%s]" % (fi.key, w, "; ".join(guards))
